@@ -7,4 +7,5 @@ CONSTANTS
   PublishAtomic = TRUE
   UnrefIsValid = TRUE
   InitMayFail = TRUE
+  IsValidSync = FALSE
 INVARIANTS NoRaceButInited Mutex OnceOnly InitComplete RefBalance UseValid Distinct
